@@ -103,6 +103,11 @@ add("C15", "controlled scheduler (sys.monitoring INSTRUCTION events + scheduler-
     "Interleavings are sequentially consistent at bytecode-instruction granularity (what CPython executes); preemption bound 3 (sync) / 2 (instruction) plus random schedules, not all schedules; a stale (already expired) timer object left in _ls_timers is not judged.",
     "DESIGN.md 3/C15")
 
+add("C16", "controlled scheduler (sys.monitoring INSTRUCTION events + scheduler-aware lock proxies) choosing the thread interleaving of the real LDM; histories recorded at the IF.LDM.3/IF.LDM.4 boundary checked for linearizability (Wing-Gong search) per object, per provider and per consumer-with-subscriptions",
+    "Exploration: a real LDM (Dictionary back-end; reactive/threaded service x reactive/threaded maintenance) with 1-3 live and 0-2 expired pre-stored objects, 0-2 pre-made subscriptions and 2-3 registered applications is driven by 2-4 actors issuing 1-4 calls each (add live/expired/by an unregistered provider, update, delete, query, register/deregister provider and consumer, subscribe, unsubscribe, maintenance pass, attendance pass; reactive passes inside add after a clock step). Schedules as for C15 (up to 3 preemptions at lock operations breadth-first, every single instruction-level preemption in the nine LDM modules, sampled pairs, randomised). Every call, response, callback and maintenance removal is recorded with one event counter; per object the add/update/delete/removal/observation history (queries, notifications, final store) must be linearizable against unborn->present(version)->absent, maintenance may remove only expired objects, identifiers must be distinct and each accepted add stored once; per provider the register/deregister(ack)/add-accepted history, and per consumer the register/deregister(ack)/query-accepted/subscribe/unsubscribe(ack)/final-registry-and-final-notified-set history must be linearizable; no notification in a pass begun after a completed removal, every attendance pass notifies every subscription that was live throughout; no exception, no deadlock.",
+    "Registration checks inside add/query are linearised per registry, not jointly with the store (an add accepted while its provider deregisters is not a violation); background loops of the threaded variants are explicit operations; the TinyDB back-end is out of the property's scope; preemption bound 3/2 plus random schedules, not all schedules.",
+    "DESIGN.md 3/C16")
+
 NOT_YET = "check not built yet (work in progress; runtime monitor planned in DESIGN.md section 3)"
 
 def main():
